@@ -162,6 +162,16 @@ def _run_one(cfg, rec):
                 record(f"update {u + 1}", params, cur)
                 if u == 0:
                     record("copy", params.copy(), cur)
+            # partial updates as in finite-difference steps: one entry changes, the others keep their value
+            for k0 in range(len(free_labels)):
+                x = SymArray((len(free_labels),))
+                for k, lab in enumerate(free_labels):
+                    i = [j for j in plain_idx if _label(cfg, j) == lab][0]
+                    if k == k0:
+                        cur[i] = sym(f"W{k0}_{i}")
+                    x[k] = cur[i]
+                params.set_from_label_and_value_arrays(free_labels, x)
+                record(f"update partial {k0}", params, cur)
         return rec_stages, ops
 
     for ctx, (kind, out) in core.explore(fn2, rec.stats, max_paths=50):
@@ -195,6 +205,7 @@ def _run_one(cfg, rec):
                     "expressions": {_label(cfg, i): expression(cfg, i)[0] for i in range(n) if cfg["deps"][i]}})
         env = {f"V_{i}": 0.5 + 0.25 * i for i in range(n)}
         env.update({f"U{u}_{i}": 0.3 + 0.2 * i + 0.15 * u for u in range(cfg["updates"]) for i in range(n)})
+        env.update({f"W{k0}_{i}": 0.9 + 0.3 * i + 0.1 * k0 for k0 in range(n) for i in range(n)})
         expected = {}
         for name, got, again, plain in stages:
             expected[name] = [core.evalf(zreal(got[i]), env) if isinstance(got[i], SymReal) else float(got[i]) for i in range(n)]
@@ -223,6 +234,15 @@ def _float_stages(cfg, env):
             if u == 0:
                 cp = params.copy()
                 out["copy"] = ([cp.get(_label(cfg, i)).value for i in range(n)], dict(cur))
+        for k0 in range(len(free_labels)):
+            x = []
+            for k, lab in enumerate(free_labels):
+                i = [j for j in plain_idx if _label(cfg, j) == lab][0]
+                if k == k0:
+                    cur[i] = float(env.get(f"W{k0}_{i}", 0.9 + 0.3 * i + 0.1 * k0))
+                x.append(cur[i])
+            params.set_from_label_and_value_arrays(free_labels, np.array(x))
+            out[f"update partial {k0}"] = ([params.get(_label(cfg, i)).value for i in range(n)], dict(cur))
     return out
 
 
